@@ -160,6 +160,17 @@ def _single(kind):
       y = g.concat([x, z], 'y')
     elif kind == 'CONCAT_SAME':
       y = g.concat([x, x], 'y')
+    elif kind == 'CONCAT_CONST2':
+      c1 = g.const('c1', np.array([[0.5, -1.5]], np.float32))
+      c2 = g.const('c2', np.array([[-0.75, 0.25, 1.0]], np.float32))
+      y = g.concat([x, c1, c2], 'y')
+    elif kind == 'FC_RUNTIME_WEIGHTS':
+      # the filter is computed at run time (a second model input)
+      w = g.input('w', (2, 2))
+      y = g.fc(x, 'y', bias=False, w_idx=w)
+    elif kind == 'FC_DEAD_CHANNEL':
+      # a pruned unit: all-zero weight row, non-zero bias
+      y = g.fc(x, 'y', w=np.array([[0.5, -1.0], [0.0, 0.0]], np.float32))
     elif kind == 'CONCAT_CONST':
       c = g.const('c', np.array([[0.5, -1.5]], np.float32))
       y = g.concat([x, c], 'y')
@@ -184,7 +195,8 @@ SINGLE_KINDS = ['FC', 'FC_NOBIAS', 'CONV_2D', 'DEPTHWISE_CONV_2D',
                 'CONCAT_SAME', 'SPLIT', 'RELU', 'CAST', 'AVERAGE_POOL_2D_RELU',
                 'AVERAGE_POOL_2D_RELU6', 'FC_RELU', 'ADD_RELU6', 'CONV_2D_NOBIAS',
                 'DEPTHWISE_CONV_2D_NOBIAS', 'TRANSPOSE_CONV_NOBIAS',
-                'TRANSPOSE_CONV_EMPTY_BIAS', 'CONCAT_CONST']
+                'TRANSPOSE_CONV_EMPTY_BIAS', 'CONCAT_CONST', 'CONCAT_CONST2',
+                'FC_DEAD_CHANNEL', 'FC_RUNTIME_WEIGHTS']
 
 
 def _topologies():
@@ -254,6 +266,22 @@ def _topologies():
     g.output(g.fc(x, 'y'))
     g.output(g.const('anchors', np.array([[0.5, -1.5, 2.0]], np.float32)))
   add('constant_is_output', const_output)
+
+  def weight_is_output(mb, g):
+    # the weights of a quantized op are also returned from the model
+    x = g.input('x', (1, 2))
+    g.output(g.fc(x, 'y'))
+    g.output([i for i, n in g.names.items() if n == 'y_w'][0])
+  add('fc_weight_is_output', weight_is_output)
+
+  def weight_shared_with_unsupported(mb, g):
+    # one constant read by a quantizable op (as weights) and by an operator
+    # the quantizer does not know (tied embedding / GATHER pattern)
+    x = g.input('x', (1, 2))
+    g.output(g.fc(x, 'y', bias=False))
+    w = [i for i, n in g.names.items() if n == 'y_w'][0]
+    g.output(g.unary('RELU', w, 'w_copy'))
+  add('weight_shared_with_unsupported_op', weight_shared_with_unsupported)
 
   def mid_output_first(mb, g):
     x = g.input('x', (1, 2))
@@ -383,7 +411,7 @@ def _topologies():
   add('fc_fc', fc_fc)
 
   # two subgraphs / signatures
-  def two_sigs(share):
+  def two_sigs(share, reorder=False):
     mb = skeletons.ModelBuilder()
     g1 = mb.subgraph('g1')
     x = g1.input('x1', (1, 2))
@@ -398,11 +426,17 @@ def _topologies():
       w2 = g2.const('w_b', data * 2)
     t = g2.unary('GELU', x2, 'gelu_b')
     g2.output(g2.fc(t, 'y_b', bias=False, w_idx=w2))
-    mb.signature('first', g1, ['x'], ['y'])
-    mb.signature('second', g2, ['x'], ['y'])
+    if reorder:
+      # the order of the signature table need not follow the subgraph indices
+      mb.signature('second', g2, ['x'], ['y'])
+      mb.signature('first', g1, ['x'], ['y'])
+    else:
+      mb.signature('first', g1, ['x'], ['y'])
+      mb.signature('second', g2, ['x'], ['y'])
     return mb.build()
   out['two_subgraphs_independent'] = two_sigs(False)
   out['two_subgraphs_shared_buffer'] = two_sigs(True)
+  out['two_subgraphs_signatures_reordered'] = two_sigs(False, reorder=True)
 
   def same_constant_name():
     # valid flatbuffer whose two subgraphs each have a constant called 'w'
@@ -422,6 +456,23 @@ def _topologies():
     mb.signature('second', g2, ['x'], ['y'])
     return mb.build()
   out['two_subgraphs_same_constant_name'] = same_constant_name()
+
+  def same_constant_name_nonadjacent():
+    mb = skeletons.ModelBuilder()
+    for k, data in enumerate(([[0.5, -1.0], [2.0, 0.25]], None,
+                              [[1.5, 3.0], [-2.0, 0.75]])):
+      g = mb.subgraph(f'g{k}')
+      x = g.input(f'x{k}', (1, 2))
+      if data is None:
+        g.output(g.unary('TANH', g.fc(x, f'fc{k}'), f'y{k}'))
+      else:
+        mb.all_names.discard('w')
+        w = g.const('w', np.array(data, np.float32))
+        g.output(g.fc(x, f'y{k}', bias=False, w_idx=w))
+      mb.signature(f'sig{k}', g, ['x'], ['y'])
+    return mb.build()
+  out['three_subgraphs_same_constant_name_nonadjacent'] = \
+      same_constant_name_nonadjacent()
 
   def acts_share_empty_buffer():
     # every activation points at ONE data-less buffer with a non-zero index
@@ -557,6 +608,35 @@ def _cfg(mode):
   raise ValueError(mode)
 
 
+def blockwise_cases():
+  """FULLY_CONNECTED variants (rank-3 input, with/without bias, with/without
+  fused RELU) x blockwise weight recipes (accepted with skip_checks; the
+  emulated-subchannel rewrite): name -> (model bytes, recipe)."""
+  out = {}
+  for bias in (True, False):
+    for fused in (0, 1):
+      mb = skeletons.ModelBuilder()
+      g = mb.subgraph()
+      x = g.input('x', (1, 2, 4))
+      g.output(g.fc(x, 'y', units=2, bias=bias, fused=fused))
+      # as the converter writes it: every tensor has a (blank) quantization
+      # table (the emulated-subchannel rewrite relies on it)
+      from ai_edge_litert import schema_py_generated as S_
+      for t in g.sg.tensors:
+        t.quantization = S_.QuantizationParametersT()
+      mbytes = mb.build()
+      for bits in (8, 4):
+        cfg = dict(weight_tensor_config=dict(
+            num_bits=bits, symmetric=True, granularity='BLOCKWISE',
+            dtype='INT', block_size=2), compute_precision='FLOAT',
+                   explicit_dequantize=True, skip_checks=True)
+        name = (f'blockwise_fc_{"bias" if bias else "nobias"}_'
+                f'{"relu" if fused else "none"}_w{bits}')
+        out[name] = (mbytes, [dict(regex='.*', operation='FULLY_CONNECTED',
+                                   algorithm_key=ALG_MM, op_config=cfg)])
+  return out
+
+
 def rule(regex, op, mode):
   if mode == 'NOQ':
     return dict(regex=regex, operation=op, algorithm_key='no_quantize',
@@ -661,16 +741,19 @@ def run_pipeline(e, model_bytes, recipe, backend='UF', qsvs=None,
   out = Outcome()
   out.input_model = flatbuffer_utils.read_model_from_bytearray(
       bytearray(model_bytes))
-  rm = recipe_manager.RecipeManager()
+  # through the public facade: Quantizer builds the RecipeManager, loads /
+  # updates the recipe and runs ParamsGenerator and ModelModifier
   out.recipe = recipe
   try:
+    q = quantizer_lib.Quantizer(bytes(model_bytes), None)
+    rm = q._recipe_manager
     if history:
-      # the manager has a past: earlier rules were added and RESOLVED (as a
-      # previous quantize()/calibrate() on the same Quantizer does), then the
+      # the Quantizer has a past: earlier rules were added and RESOLVED (as a
+      # previous quantize()/calibrate() on the same object does), then the
       # final recipe is entered through update calls
       for past in history:
         for r in copy.deepcopy(past):
-          rm.add_quantization_config(
+          q.update_quantization_recipe(
               r['regex'], r['operation'],
               qtyping.OpQuantizationConfig.from_dict(r['op_config'])
               if r.get('op_config') else None, r['algorithm_key'])
@@ -678,12 +761,13 @@ def run_pipeline(e, model_bytes, recipe, backend='UF', qsvs=None,
           if name is not None:
             rm.get_quantization_configs(qtyping.TFLOperationName(name), scope)
       for r in copy.deepcopy(recipe):
-        rm.add_quantization_config(
+        q.update_quantization_recipe(
             r['regex'], r['operation'],
             qtyping.OpQuantizationConfig.from_dict(r['op_config'])
             if r.get('op_config') else None, r['algorithm_key'])
     else:
-      rm.load_quantization_recipe(copy.deepcopy(recipe))
+      q.load_quantization_recipe(copy.deepcopy(recipe))
+    rm = q._recipe_manager
   except Exception as ex:  # pylint: disable=broad-except
     out.raised = ex
     out.stage = 'load_recipe'
@@ -701,15 +785,24 @@ def run_pipeline(e, model_bytes, recipe, backend='UF', qsvs=None,
   stub = types.SimpleNamespace(
       read_model_from_bytearray=flatbuffer_utils.read_model_from_bytearray,
       convert_object_to_bytearray=capture)
+  inner = q._get_quantization_params
+
+  def keep_params(calibration_result=None):
+    out.params = inner(calibration_result)
+    out.stage = 'modify'
+    return out.params
+  q._get_quantization_params = keep_params
   with patch.symbolic_numpy(), patch.rebind(
       'ai_edge_quantizer.model_modifier', 'flatbuffer_utils', stub):
     try:
       out.stage = 'params'
-      pg = params_generator.ParamsGenerator(model_bytes)
-      params = pg.generate_quantization_parameters(rm, qsvs)
-      out.params = params
-      out.stage = 'modify'
-      model_modifier.ModelModifier(model_bytes).modify_model(params)
+      if not recipe:
+        # quantize() refuses an empty recipe by contract; the pipeline below
+        # it is still exercised
+        model_modifier.ModelModifier(model_bytes).modify_model(
+            keep_params(qsvs))
+      else:
+        q.quantize(qsvs)
       out.model = captured[0]
       out.stage = 'done'
     except Inconclusive:
@@ -849,12 +942,19 @@ def model_bytes_of(skel, tier='thorough'):
 
 def replay_public(skel, rname, stats, tier='thorough', history=None):
   """Runs the public API concretely. Returns (outcome dict)."""
+  if skel.startswith('blockwise_fc_'):
+    model_bytes, recipe = blockwise_cases()[skel]
+    return _replay_with(model_bytes, recipe, stats, history)
   if skel.startswith('dag'):
     fam = skeleton_family('thorough_dags', int(skel[3:].split('_')[0]))
   else:
     fam = skeleton_family(tier)
   model_bytes = fam[skel]
   recipe = recipe_family(model_bytes, 'thorough')[rname]
+  return _replay_with(model_bytes, recipe, stats, history)
+
+
+def _replay_with(model_bytes, recipe, stats, history=None):
   inp = flatbuffer_utils.read_model_from_bytearray(bytearray(model_bytes))
   if history:
     # same past through the public API: quantize with the earlier recipes on
